@@ -48,6 +48,15 @@ func (c *Ctx) goSites(pkgs []*packages.Package) []*goSite {
 				}
 				if fl, ok := unparen(gs.Call.Fun).(*ast.FuncLit); ok {
 					s.lit = fl
+				} else if id, isId := unparen(gs.Call.Fun).(*ast.Ident); isId && s.launcher != nil {
+					// `worker := func(..) {..}; go worker(..)`: the goroutine runs that literal
+					if v, isVar := info.Uses[id].(*types.Var); isVar {
+						if defs := localDefs(info, s.launcher, v); len(defs) == 1 {
+							if fl, isLit := unparen(defs[0]).(*ast.FuncLit); isLit {
+								s.lit = fl
+							}
+						}
+					}
 				}
 				perFn[s.fnName]++
 				s.ord = perFn[s.fnName]
@@ -335,10 +344,39 @@ func (c *Ctx) goClose(rule string, launcher *ast.BlockStmt, ltype *ast.FuncType,
 						chParam = paramObj(ginfo, gi.Decl, i)
 					}
 				}
+				// or the closing handed over as a callback: `go waitThenClose(&wg, func() { close(ch) })`
+				var cbParam types.Object
 				if chParam == nil {
+					for i, a := range s.stmt.Call.Args {
+						fl, isLit := unparen(a).(*ast.FuncLit)
+						if !isLit {
+							continue
+						}
+						closes := false
+						for _, cl := range callsIn(fl.Body, true) {
+							if id, ok := cl.Fun.(*ast.Ident); ok && id.Name == "close" && len(cl.Args) == 1 && identObj(info, cl.Args[0]) == ch {
+								closes = true
+							}
+						}
+						if closes && len(fl.Body.List) == 1 {
+							cbParam = paramObj(ginfo, gi.Decl, i)
+						}
+					}
+				}
+				if chParam == nil && cbParam == nil {
 					continue
 				}
 				isCloseP := func(n ast.Node) bool {
+					if cbParam != nil {
+						var call *ast.CallExpr
+						switch x := n.(type) {
+						case *ast.ExprStmt:
+							call, _ = x.X.(*ast.CallExpr)
+						case *ast.DeferStmt:
+							call = x.Call
+						}
+						return call != nil && identObj(ginfo, call.Fun) == cbParam
+					}
 					var call *ast.CallExpr
 					switch x := n.(type) {
 					case *ast.ExprStmt:
@@ -363,7 +401,7 @@ func (c *Ctx) goClose(rule string, launcher *ast.BlockStmt, ltype *ast.FuncType,
 						if o := methodCallOn(ginfo, call, "Wait"); o != nil && isWaitGroup(o.Type()) && closePos == token.NoPos {
 							waited = true
 						}
-						if id, ok := call.Fun.(*ast.Ident); ok && id.Name == "close" && closePos == token.NoPos {
+						if id, ok := call.Fun.(*ast.Ident); ok && (id.Name == "close" || (cbParam != nil && identObj(ginfo, id) == cbParam)) && closePos == token.NoPos {
 							closePos = call.Pos()
 						}
 					}
